@@ -5,7 +5,7 @@ from vlib.core import Query
 META = {
     "engine": "E4 SIMD-vs-C equivalence",
     "level_text": "For each listed kernel pair and block geometry, CBMC runs the real AVX2/SSE2 kernel body and the real C reference on the same arbitrary sample content (all 2^(8n)/2^(16n) inputs, extremes included) and proves every output element equal, every element outside the block untouched, and every access inside exact-size heap buffers. x86 intrinsics are evaluated by gcc's own header definitions where they are plain vector C, and by lane-wise C bodies (models/ia32_models.h) for the builtins CBMC lacks; a translator-validation query proves CBMC's evaluation of every intrinsic used equals the CPU's result on concrete operand vectors.",
-    "level_note": "Kernels covered: svt_convert_16bit_to_8bit_avx2, svt_convert_8bit_to_16bit_avx2, svt_residual_kernel8bit_avx2, svt_residual_kernel16bit_avx2, svt_residual_kernel16bit_sse2_intrin, svt_picture_average_kernel_sse2_intrin (element-wise, all AV1 block widths 4..64, 4 rows) and svt_spatial_full_distortion_kernel_avx2 for 4x2 blocks only. Reduction kernels (SSE/SAD/variance) beyond 8 accumulated terms are outside: equality of two differently associated 16-term sums is SAT-hard (isolated 10-line test > 120 s on all SAT back ends) and CBMC's SMT back ends abort on gcc vector casts, so those kernels, the transform/convolve/intra-prediction kernels, AVX512, and all other dispatch entries are not claimed.",
+    "level_note": "Kernels covered: svt_convert_16bit_to_8bit_avx2, svt_convert_8bit_to_16bit_avx2, svt_residual_kernel8bit_avx2, svt_residual_kernel16bit_avx2, svt_residual_kernel16bit_sse2_intrin, svt_picture_average_kernel_sse2_intrin, svt_unpack_avg_avx2_intrin, svt_unpack_avg_sse2_intrin, svt_enc_un_pack8_bit_data_avx2_intrin (element-wise, all AV1 block widths 4..64, 4 rows) and svt_spatial_full_distortion_kernel_avx2 for 4x2 blocks only. Reduction kernels (SSE/SAD/variance) beyond 8 accumulated terms are outside: equality of two differently associated 16-term sums is SAT-hard (isolated 10-line test > 120 s on all SAT back ends) and CBMC's SMT back ends abort on gcc vector casts, so those kernels, the transform/convolve/intra-prediction kernels, AVX512, and all other dispatch entries are not claimed.",
     "technique": "solver-based checking of the real code (CBMC bounded symbolic execution of the real SIMD kernel body and its C reference on the same symbolic input; equivalence assertion; intrinsic models validated against the CPU)",
     "assumptions": ["svt_convert_16bit_to_8bit: source samples <= 255 (16-bit containers of 8-bit data; the AVX2 pack saturates where the C cast truncates)",
                     "squaring in the SSE query abstracted by an arbitrary 16-bit table shared by both sides (sound: the real squares are one instance)"],
@@ -61,7 +61,10 @@ KERNELS = {1: ("residual_kernel8bit_avx2", "svt_residual_kernel8bit_avx2", "svt_
            2: ("residual_kernel16bit_avx2", "svt_residual_kernel16bit_avx2", "svt_residual_kernel16bit_c"),
            3: ("residual_kernel16bit_sse2", "svt_residual_kernel16bit_sse2_intrin", "svt_residual_kernel16bit_c"),
            4: ("convert_8bit_to_16bit_avx2", "svt_convert_8bit_to_16bit_avx2", "svt_convert_8bit_to_16bit_c"),
-           5: ("picture_average_sse2", "svt_picture_average_kernel_sse2_intrin", "svt_picture_average_kernel_c")}
+           5: ("picture_average_sse2", "svt_picture_average_kernel_sse2_intrin", "svt_picture_average_kernel_c"),
+           6: ("unpack_avg_avx2", "svt_unpack_avg_avx2_intrin", "svt_unpack_avg_c"),
+           7: ("unpack_avg_sse2", "svt_unpack_avg_sse2_intrin", "svt_unpack_avg_c"),
+           8: ("un_pack8_bit_data_avx2", "svt_enc_un_pack8_bit_data_avx2_intrin", "svt_un_pack8_bit_data_c")}
 
 
 def elem(k, w, h=4, to=300):
@@ -82,7 +85,7 @@ def sse_sparse(w, h, g, n=4, to=300):
 
 def queries(tier):
     qs = [selftest()] + [conv(w) for w in (4, 8, 24, 32, 40, 64)]
-    qs += [elem(k, w) for k in (1, 2, 3, 4, 5) for w in (4, 8, 16, 32, 64)]
+    qs += [elem(k, w) for k in (1, 2, 3, 4, 5, 6, 7, 8) for w in (4, 8, 16, 32, 64)]
     qs += [sse(4, 2)]
     if tier == "thorough":
         qs += [conv(w) for w in (1, 2, 3, 5, 7, 12, 16, 17, 31, 33, 48, 63, 65, 72, 96, 128)]
